@@ -730,9 +730,9 @@ class Form:
     """f(<arrays>, *pos, **kw); array-valued entries of pos/kw become additional inputs of the traced / exported function"""
     __slots__ = ("pos", "kw", "param", "spelling", "single")
 
-    def __init__(self, pos, kw, param, spelling, single=None):
+    def __init__(self, pos, kw, param, spelling, single=()):
         self.pos, self.kw, self.param, self.spelling = list(pos), dict(kw), param, spelling
-        self.single = single          # for a pair form: text of the single-parameter form it extends
+        self.single = tuple(single)   # for a pair form: the two single-parameter forms it combines
 
     def text(self, name, n_arr):
         parts = ["<arr>"] * n_arr + [_vtext(v) for v in self.pos] + [f"{k}={_vtext(v)}" for k, v in self.kw.items()]
@@ -796,9 +796,12 @@ def forms_for(e, req, opts, first, pairs):
                 if cv is None:
                     continue
                 if fk is not None and c.kind is not c.POSITIONAL_ONLY:
-                    yield Form([], {c.name: cv, p.name: v}, p.name, f"keyword, with {c.name}", single=fk)
+                    yield Form([], {c.name: cv, p.name: v}, p.name, f"keyword, with {c.name}",
+                               single=(fk, Form([], {c.name: cv}, c.name, "keyword")))
                 if fp is not None and c in before:
-                    yield Form([(cv if q is c else q.default) for q in before] + [v], {}, p.name, f"positional, with {c.name}", single=fp)
+                    ci = before.index(c)
+                    yield Form([(cv if q is c else q.default) for q in before] + [v], {}, p.name, f"positional, with {c.name}",
+                               single=(fp, Form([q.default for q in before[:ci]] + [cv], {}, c.name, "positional")))
 
 
 def _outcome(fn, *args):
@@ -829,6 +832,14 @@ def _same_strict(a, b):
     return True, ""
 
 
+def _dominated(c, failures):
+    """a pair form one of whose two single-parameter forms already fails alone"""
+    if not c["form"].single:
+        return False
+    failing = {x["key"] for x in failures}
+    return any(f"arg {sf.text(c['name'], c['n_arr'])}" in failing for sf in c["form"].single)
+
+
 def behavioural(ctx, usable, tier, rng, export_budget_s, only=None):
     """-> dict of counters + 'failures': [{key, callable, form, path, how, ...}]"""
     import time
@@ -836,7 +847,7 @@ def behavioural(ctx, usable, tier, rng, export_budget_s, only=None):
     t0 = time.time()
     out = {"callables": 0, "callables_with_a_valid_plain_call": 0, "forms_x_values": 0, "substitute_does_not_bind_form(sig finding)": 0,
            "original_raises": 0, "J_same": 0, "J_explicitly_rejected": 0, "J_cannot_evaluate": 0, "J_plain_call_differs": [],
-           "E_tried": 0, "E_same": 0, "E_explicitly_rejected": 0, "E_model_refused_by_onnxruntime": [],
+           "E_tried": 0, "E_same": 0, "E_explicitly_rejected": 0, "E_fails_like_the_plain_call": 0, "E_model_refused_by_onnxruntime": [],
            "E_plain_call_export_differs_or_fails": [], "E_budget_exhausted": False, "failures": []}
     pairs = tier != "quick"
     try:        # XLA's persistent compilation cache: the eager side compiles one small kernel per (function, static argument)
@@ -932,11 +943,11 @@ def behavioural(ctx, usable, tier, rng, export_budget_s, only=None):
             if c["plain"] and c["J"][0] != "same":
                 bad_plain.add((c["name"], c["profile"]))
                 out["J_plain_call_differs"].append(f"{c['name']} on {c['profile']}: {c['J'][0]} {c['J'][1][:100]}")
-        for c in cases:
+        for c in sorted(cases, key=lambda c: bool(c["form"].single)):          # single-parameter forms first
             if c["plain"] or (c["name"], c["profile"]) in bad_plain:
                 continue
-            if c["form"].single is not None and f"arg {c['form'].single.text(c['name'], c['n_arr'])}" in {x["key"] for x in out["failures"]}:
-                c["J"] = ("skipped", "")          # a companion adds nothing to a form that already fails alone
+            if _dominated(c, out["failures"]):
+                c["J"] = ("skipped", "")          # combining adds nothing to a form that already fails alone
                 continue
             st, how = c["J"]
             if st == "same":
@@ -954,7 +965,7 @@ def behavioural(ctx, usable, tier, rng, export_budget_s, only=None):
         failed = {x["key"] for x in out["failures"]}
         todo = [c for c in cases if not c["plain"] and c["J"][0] in ("same", "cannot-evaluate") and f"arg {c['text']}" not in failed]
         rng.shuffle(todo)          # the order only matters when the budget cuts the list short
-        todo.sort(key=lambda c: c["form"].single is not None)          # single-parameter forms first (stable sort)
+        todo.sort(key=lambda c: bool(c["form"].single))          # single-parameter forms first (stable sort)
         plain_ok = {}
         t1 = time.time()
         for c in todo:
@@ -963,16 +974,20 @@ def behavioural(ctx, usable, tier, rng, export_budget_s, only=None):
                 break
             pk = (c["name"], c["profile"])
             if pk not in plain_ok:
+                # how the PLAIN call exports: "ok", or the way it goes wrong (another property's subject).  A form that goes
+                # wrong in exactly the same way says nothing about its argument and is not attributed to it.
                 try:
                     base = [x["want"][1] for x in cases if x["plain"] and (x["name"], x["profile"]) == pk][0]
-                    plain_ok[pk] = _same(_flat(_export_run(lambda *xs, _f=c["f"]: _f(*xs), c["arrays"])), base)[0]
-                except BaseException:
-                    plain_ok[pk] = False
-                if not plain_ok[pk]:
-                    out["E_plain_call_export_differs_or_fails"].append(f"{pk[0]} on {pk[1]}")
-            if not plain_ok[pk]:
+                    plain_ok[pk] = "ok" if _same(_flat(_export_run(lambda *xs, _f=c["f"]: _f(*xs), c["arrays"])), base)[0] else "differs"
+                except _ModelInvalid:
+                    plain_ok[pk] = "model-invalid"
+                except BaseException as exc:
+                    plain_ok[pk] = f"{type(exc).__name__}: {str(exc)[:80]}"
+                if plain_ok[pk] != "ok":
+                    out["E_plain_call_export_differs_or_fails"].append(f"{pk[0]} on {pk[1]}: {plain_ok[pk]}")
+            if plain_ok[pk] in ("differs", "model-invalid"):
                 continue
-            if c["form"].single is not None and f"arg {c['form'].single.text(c['name'], c['n_arr'])}" in {x["key"] for x in out["failures"]}:
+            if _dominated(c, out["failures"]):
                 continue
             out["E_tried"] += 1
             try:
@@ -985,6 +1000,8 @@ def behavioural(ctx, usable, tier, rng, export_budget_s, only=None):
                 msg = f"{type(exc).__name__}: {str(exc)[:200]}"
                 if isinstance(exc, NotImplementedError) or EXPLICIT.search(str(exc)):
                     out["E_explicitly_rejected"] += 1
+                elif plain_ok[pk] == f"{type(exc).__name__}: {str(exc)[:80]}":
+                    out["E_fails_like_the_plain_call"] += 1
                 else:
                     out["failures"].append({"key": f"arg {c['text']}", "callable": c["name"], "form": c["text"], "parameter": c["form"].param,
                                             "spelling": c["form"].spelling, "inputs": c["profile"], "path": "export",
